@@ -107,7 +107,7 @@ func (m *Metadata) PutInt(key string, n int) {
 
 func (m *Metadata) GetInt(key string) (int, bool) {
 	v, ok := m.Get(key)
-	if !ok {
+	if !ok || len(v) < 8 {
 		return 0, false
 	}
 	return int(binary.BigEndian.Uint64(v)), true
@@ -124,7 +124,7 @@ func (m *Metadata) PutBool(key string, v bool) {
 
 func (m *Metadata) GetBool(key string) (bool, bool) {
 	v, ok := m.Get(key)
-	if !ok {
+	if !ok || len(v) < 1 {
 		return false, false
 	}
 	return v[0] != 0, true
@@ -142,20 +142,22 @@ func (m *Metadata) Get(key string) ([]byte, bool) {
 func readField(r io.Reader) ([]byte, error) {
 	var lenb [4]byte
 
-	_, err := r.Read(lenb[:])
+	_, err := io.ReadFull(r, lenb[:])
 	if err != nil {
 		return nil, err
 	}
 
 	len := binary.BigEndian.Uint32(lenb[:])
 
-	fb := make([]byte, len)
-	_, err = r.Read(fb)
+	// the length prefix comes from disk: never allocate more than what is actually there
+	var fb bytes.Buffer
+
+	_, err = io.CopyN(&fb, r, int64(len))
 	if err != nil {
 		return nil, err
 	}
 
-	return fb, nil
+	return fb.Bytes(), nil
 }
 
 func writeField(b []byte, w io.Writer) (n int, err error) {
